@@ -194,6 +194,7 @@ type env struct {
 
 	nSentinel int
 	lastTo    *int
+	forceDoc  *mdoc // span: the document the next update/grant/revoke applies to
 	guard     *guardACP
 }
 
@@ -622,6 +623,9 @@ func (e *env) write(op Op, tw *twin, pick func(col, idx int) *mdoc, forceVisible
 
 	case "update", "delete":
 		d := pick(col, op.Doc)
+		if e.forceDoc != nil {
+			d = e.forceDoc
+		}
 		if d == nil {
 			return nil
 		}
@@ -633,10 +637,13 @@ func (e *env) write(op Op, tw *twin, pick func(col, idx int) *mdoc, forceVisible
 
 	case "grant", "revoke":
 		d := pick(col, op.Doc)
+		if e.forceDoc != nil {
+			d = e.forceDoc
+		}
 		if d == nil {
 			return nil
 		}
-		if op.ByOwner {
+		if op.ByOwner && e.forceDoc == nil {
 			// relationships only exist on owned documents: prefer one (a public target stays possible with ByOwner off)
 			owned := []*mdoc{}
 			for _, x := range e.docs[col] {
@@ -1298,6 +1305,9 @@ func (e *env) request(r int, rq Req, twp **twin) *hx.Failure {
 
 	case "sub":
 		return e.subscribe(r, rq, tw)
+
+	case "span":
+		return e.span(r, rq, twp)
 	}
 	hx.Harnessf("unknown request kind %q", rq.K)
 	return nil
@@ -1458,6 +1468,7 @@ type subReader struct {
 	msgs   []hx.Result
 	seen   chan struct{}
 	closed chan struct{}
+	notify chan struct{}
 }
 
 func openSub(n *hx.Node, r int, q string, sentinel string) (*subReader, context.CancelFunc, string) {
@@ -1471,7 +1482,7 @@ func openSub(n *hx.Node, r int, q string, sentinel string) (*subReader, context.
 		}
 		return nil, func() {}, "errors=" + strings.Join(errs, " | ")
 	}
-	sr := &subReader{seen: make(chan struct{}), closed: make(chan struct{})}
+	sr := &subReader{seen: make(chan struct{}), closed: make(chan struct{}), notify: make(chan struct{}, 1)}
 	go func() {
 		defer close(sr.closed)
 		signalled := false
@@ -1488,7 +1499,11 @@ func openSub(n *hx.Node, r int, q string, sentinel string) (*subReader, context.
 			sr.mu.Lock()
 			sr.msgs = append(sr.msgs, out)
 			sr.mu.Unlock()
-			if !signalled && strings.Contains(hx.Canon(out.Data), sentinel) {
+			select {
+			case sr.notify <- struct{}{}:
+			default:
+			}
+			if !signalled && sentinel != "" && strings.Contains(hx.Canon(out.Data), sentinel) {
 				signalled = true
 				close(sr.seen)
 			}
@@ -1519,6 +1534,223 @@ func (s *subReader) finish(cancel context.CancelFunc, what string) []hx.Result {
 	s.mu.Lock()
 	defer s.mu.Unlock()
 	return s.msgs
+}
+
+// waitFor blocks until a message at or after position from carries the marker and returns the position behind it.
+func (s *subReader) waitFor(marker string, from int, what string) int {
+	deadline := time.After(60 * time.Second)
+	for {
+		s.mu.Lock()
+		for i := from; i < len(s.msgs); i++ {
+			if strings.Contains(hx.Canon(s.msgs[i].Data), marker) {
+				s.mu.Unlock()
+				return i + 1
+			}
+		}
+		l := []string{}
+		for _, m := range s.msgs {
+			l = append(l, show(m))
+		}
+		s.mu.Unlock()
+		select {
+		case <-s.notify:
+		case <-s.closed:
+			hx.Harnessf("%s: subscription ended before the sentinel %s arrived; messages: %s", what, marker, strings.Join(l, " ; "))
+		case <-deadline:
+			hx.Harnessf("%s: the sentinel %s was not delivered within 60 s; messages: %s", what, marker, strings.Join(l, " ; "))
+		}
+	}
+}
+
+func (s *subReader) slice(from, to int) []hx.Result {
+	s.mu.Lock()
+	defer s.mu.Unlock()
+	return append([]hx.Result{}, s.msgs[from:to]...)
+}
+
+func (s *subReader) stop(cancel context.CancelFunc, what string) {
+	cancel()
+	select {
+	case <-s.closed:
+	case <-time.After(60 * time.Second):
+		hx.Harnessf("%s: subscription did not end after cancel", what)
+	}
+}
+
+// span: a subscription of the requester that stays open ACROSS relationship changes. Every step (a write, or a grant /
+// revoke of reader on the target document to the requester or to '*') is followed by a public sentinel document, so
+// the messages of each step are known. Oracle per step: after a write, the real node's messages equal those of a twin
+// that holds exactly what the requester may read NOW (the twin is rebuilt at every relationship change: "granting or
+// revoking changes the outcome from the next request on", and a notification is such an outcome); after a grant the
+// real node may additionally re-announce the granted document (AddDACActorRelationship publishes its heads) - only if
+// the requester may read it now, and only with the content the twin holds.
+func (e *env) span(r int, rq Req, twp **twin) *hx.Failure {
+	tw := *twp
+	name := colName(rq.Col)
+	a := ""
+	if rq.Filter != "" {
+		a = "(filter: {" + rq.Filter + "})"
+	}
+	q := fmt.Sprintf(`subscription { %s%s { %s } }`, name, a, baseFields(rq.Col))
+	// the target: a live private document of the collection that the requester does not own
+	var cands []*mdoc
+	for _, d := range e.docs[rq.Col] {
+		if d.owner >= 0 && d.owner != r && !d.deleted {
+			cands = append(cands, d)
+		}
+	}
+	var tgt *mdoc
+	if len(cands) > 0 && rq.Doc >= 0 {
+		tgt = cands[rq.Doc%len(cands)]
+	}
+	sa, ca, ea := openSub(e.real, r, q, "")
+	sb, cb, eb := openSub(tw.n, r, q, "")
+	defer func() { ca(); cb() }()
+	if sa == nil || sb == nil {
+		if ea != eb {
+			return hx.Failf("C10/differs/subscription", "%s: opening answers %q on the real node, %q on the twin", q, ea, eb)
+		}
+		return nil
+	}
+	e.st.add("req:subscription-span")
+	posA, posB := 0, 0
+	delivered, denied := false, false // the target's last write before now reached / did not reach the requester
+	history := []string{}
+	for si, op := range rq.Steps {
+		isRel := false
+		var relDoc *mdoc
+		switch op.K {
+		case "toggle":
+			if tgt == nil {
+				continue
+			}
+			to := r
+			if r < 0 || op.To == 3 {
+				to = 3
+			}
+			k := "grant"
+			rel := "reader"
+			// revoke whatever lets the requester read, one relationship at a time; grant when nothing does
+			for _, cand := range []struct {
+				rel string
+				to  int
+			}{{"reader", r}, {"updater", r}, {"reader", 3}, {"updater", 3}} {
+				if cand.to >= 0 && tgt.rel[cand.rel][cand.to] {
+					k, rel, to = "revoke", cand.rel, cand.to
+					break
+				}
+			}
+			readBefore := tgt.canRead(r)
+			e.forceDoc = tgt
+			f := e.write(Op{K: k, Col: rq.Col, By: tgt.owner, ByOwner: false, Rel: rel, To: to}, nil, e.pickAll, false)
+			e.forceDoc = nil
+			if f != nil {
+				return f
+			}
+			isRel, relDoc = true, tgt
+			history = append(history, fmt.Sprintf("%s %s to %d", k, rel, to))
+			if readBefore != tgt.canRead(r) {
+				e.st.add("span:visibility-changed")
+				if readBefore && delivered {
+					e.st.add("span:revoke-after-a-delivered-write")
+				}
+				if !readBefore && denied {
+					e.st.add("span:grant-after-a-withheld-write")
+				}
+			}
+			// the world of the requester changed: a new twin, subscribed before anything else happens
+			sb.stop(cb, "twin "+q)
+			closeNode(tw.n)
+			tw = e.buildTwin(r)
+			*twp = tw
+			sb, cb, eb = openSub(tw.n, r, q, "")
+			if sb == nil {
+				hx.Harnessf("twin refused the subscription it accepted before: %s", eb)
+			}
+			posB = 0
+		case "update", "create":
+			w := op
+			if op.Tgt {
+				if tgt == nil || op.K != "update" {
+					continue
+				}
+				e.forceDoc = tgt
+				w.ByOwner, w.Col = true, rq.Col
+			}
+			before := len(e.log)
+			f := e.write(w, tw, e.pickAll, false)
+			e.forceDoc = nil
+			if f != nil {
+				return f
+			}
+			if op.Tgt && len(e.log) > before {
+				delivered, denied = tgt.canRead(r), !tgt.canRead(r)
+				e.st.add("span:target-write")
+			}
+			history = append(history, fmt.Sprintf("%s tgt=%v", op.K, op.Tgt))
+		default:
+			continue
+		}
+		// sentinel
+		sentinelK := 100000 + e.nSentinel
+		e.nSentinel++
+		marker := fmt.Sprintf(`"k":%d,`, sentinelK)
+		save := e.nextK
+		e.nextK = sentinelK
+		v := sentinelValue
+		f := e.write(Op{K: "create", Col: rq.Col, By: -1, Via: "gql", I: &v}, tw, e.pickAll, false)
+		e.nextK = save
+		if f != nil {
+			return f
+		}
+		endA := sa.waitFor(marker, posA, "real node "+q)
+		endB := sb.waitFor(marker, posB, "twin "+q)
+		ma, mb := sa.slice(posA, endA), sb.slice(posB, endB)
+		posA, posB = endA, endB
+		la, lb := []string{}, []string{}
+		for _, m := range ma {
+			la = append(la, show(m))
+		}
+		for _, m := range mb {
+			lb = append(lb, show(m))
+		}
+		where := fmt.Sprintf("%s, step %d of [%s] (target %v)\n real: %s\n twin: %s", q, si, strings.Join(history, "; "), tgt, strings.Join(la, " ; "), strings.Join(lb, " ; "))
+		if isRel {
+			// echoes of the granted document, then the sentinel
+			if len(ma) == 0 || len(mb) != 1 || la[len(la)-1] != lb[0] {
+				return hx.Failf("C10/differs/subscription-span", "after a relationship change the sentinel notifications differ: %s", where)
+			}
+			if len(ma) > 1 {
+				e.st.add("span:grant-echo")
+				fa := ""
+				if rq.Filter != "" {
+					fa = ", filter: {" + rq.Filter + "}"
+				}
+				cur := exec(tw.n, r, fmt.Sprintf(`query { %s(docID: %s%s) { %s } }`, name, gqlStr(relDoc.id), fa, baseFields(rq.Col)))
+				for _, m := range ma[:len(ma)-1] {
+					if !relDoc.canRead(r) {
+						return hx.Failf("C10/leak/subscription-span", "a relationship change on a document the requester may not read is announced to it: %s", where)
+					}
+					if show(m) != show(cur) {
+						return hx.Failf("C10/differs/subscription-span", "the announcement of the granted document is not its current readable state %s: %s", show(cur), where)
+					}
+				}
+			}
+			continue
+		}
+		if strings.Join(la, "\n") != strings.Join(lb, "\n") {
+			kind := "differs"
+			for _, m := range ma {
+				if e.leakKind(r, m) == "leak" {
+					kind = "leak"
+				}
+			}
+			return hx.Failf("C10/"+kind+"/subscription-span", "notifications of a write differ from a database holding exactly what the requester may read now: %s", where)
+		}
+	}
+	sa.stop(ca, "real node "+q)
+	sb.stop(cb, "twin "+q)
+	return nil
 }
 
 func (e *env) subscribe(r int, rq Req, tw *twin) *hx.Failure {
